@@ -71,7 +71,7 @@ def run(ctx):
                      "afterwards every (class, form) observed with check_semi_singleton_entry_exists and a final construction; compared with the per-class key->instance model")
     res.trusted_base = common.TRUSTED_AE + ["value model of hash(): small ints hash to themselves except hash(-1) == hash(-2); distinct strings/tuples of distinct hashes differ (collisions other than -1/-2 are not constructible by the harness)",
                                             "json.dumps(kwargs, sort_keys=True) is a canonical form of the keyword mapping"]
-    res.assumptions = ["arguments are hashable / JSON-serialisable as the default key function requires", "no re-entrant construction"]
+    res.assumptions = ["arguments are hashable / JSON-serialisable as the default key function requires", "re-entrant construction is covered for one class whose __init__ constructs another key of its own class"]
     h = H(ctx.src, [MOD])
     n = 0
     for hf in ("None", "first", "parity"):
@@ -232,7 +232,7 @@ def evaluate(h, hf, live, extra_two, op):
         if len(log.items) != before:
             return f"check({c}, {form}) created an instance"
         want = T[c].get(k)
-        if (want is None and h.I.truth(out.value)) or (want is not None and out.value is not want):
+        if (want is None and out.value is not None and out.value is not False) or (want is not None and out.value is not want and out.value is not True):
             return f"check({c}, {form}) reports {out.value!r}; live mapping: {want!r}"
     elif opn == "get_all":
         before = len(log.items)
@@ -274,7 +274,7 @@ def evaluate(h, hf, live, extra_two, op):
             before = len(log.items)
             out = h.call(g["check_semi_singleton_entry_exists"], g[c2], *args, **kw)
             want = T[c2].get(key_of(hf, f2))
-            if out.kind != "return" or len(log.items) != before or (want is None and h.I.truth(out.value)) or (want is not None and out.value is not want):
+            if out.kind != "return" or len(log.items) != before or (want is None and out.value is not None and out.value is not False) or (want is not None and out.value is not want and out.value is not True):
                 return f"afterwards check({c2}, {f2}) reports {out!r}; the model's live mapping is {want!r}"
     for c2 in CLASSES:
         for f2 in ("one", "three"):
